@@ -349,13 +349,15 @@ def handle (case obs : List String) : String × String :=
                 match unhex val with
                 | none => none
                 | some val =>
-                  let r := if op == "ins" then insert v enc key val m else append v enc key val m
+                  let r := if op == "ins" then insert v enc key val m
+                    else if op == "ent" then entryOrInsert v enc key val m else append v enc key val m
                   let tok := match r.1 with
                     | .keyErr => "keyerr"
                     | .valErr => "valerr"
                     | .prev p => "prev:" ++ optHex p
                     | .existed b => "existed:" ++ (if b then "1" else "0")
                     | .removed p => "removed:" ++ optHex p
+                    | .entry w => "entry:" ++ hex w
                   run k more' r.2 (tok :: acc)
               | [] => none
           | _, _ => none
